@@ -152,3 +152,68 @@ def run_dispatch(P, funcname="diff", pos=None, to=None, axnames=("AX",), axis_ar
                     metric_weighted=metric_weighted, other_component=other_component if other_component is not None else Sym("USER_OTHER"), kwargs=kws)
 
     return ev.run_paths(fi, make)
+
+
+# ---------------------------------------------------------------------------------- apply_as_grid_ufunc
+def m_apply_ufunc(ev, args, kw, node):
+    ev.events.append(("xr.apply_ufunc", list(args), dict(kw), node))
+    ocd = kw.get("output_core_dims")
+    outs = []
+    if isinstance(ocd, list):
+        for od in ocd:
+            outs.append(Obj("DataArray", "RESULT", (), {"dims": (Sym("t"),) + tuple(od), "__isinstance__": ("DataArray",), "from": list(args[1:])}))
+    if not outs:
+        return TOP
+    return outs[0] if len(outs) == 1 else tuple(outs)
+
+
+def apply_models(record_rechunk=True):
+    m = dict(COMMON_MODELS)
+    m["xarray.apply_ufunc"] = m_apply_ufunc
+    m["grid_ufunc:_GridUFuncSignature.from_string"] = m_from_string
+    m["grid_ufunc:_GridUFuncSignature"] = m_sig_ctor
+
+    def m_map(ev, args, kw, node):
+        b = dict(zip(["func", "original_args", "grid", "in_core_dims", "boundary_width_real_axes", "out_dtypes"], args))
+        b.update(kw)
+        ev.events.append(("map_func_over_core_dims", b, node))
+        return Obj("func", "mapped_func", (), {"wraps": b.get("func")})
+
+    def m_rechunk(ev, args, kw, node):
+        b = dict(zip(["padded_args", "original_args", "boundary_width_real_axes", "grid"], args))
+        b.update(kw)
+        ev.events.append(("rechunk", b, node))
+        pa = b.get("padded_args")
+        return [p.with_eff(("RECHUNK",)) if isinstance(p, Obj) else p for p in pa] if isinstance(pa, list) else TOP
+
+    m["grid_ufunc:_map_func_over_core_dims"] = m_map
+    if record_rechunk:
+        m["grid_ufunc:_rechunk_to_merge_in_boundary_chunks"] = m_rechunk
+    return m
+
+
+def apply_attr_models():
+    a = da_attr_models()
+    a[("Dataset", "sizes")] = lambda ev, o, n: Obj("sizes", "sizes")
+    a[("DataArray", "dtype")] = lambda ev, o, n: Sym("dtype_of_" + o.name)
+    return a
+
+
+def run_apply(P, signature, axis, args=None, boundary_width=None, axnames=("AX", "AY"), positions=None, map_overlap=False,
+              pad_before_func=True, other_component=None, grid=None, extra_kwargs=None, func=None, **over):
+    """Evaluate grid_ufunc.apply_as_grid_ufunc as a whole.  `args`: callable returning the tuple of data arguments."""
+    ev = Evaluator(P, models=apply_models(), attr_models=apply_attr_models(), method_models=da_method_models())
+    fi = P.func("grid_ufunc:apply_as_grid_ufunc")
+    import copy
+
+    def make():
+        g = grid() if grid is not None else make_grid(axnames, positions=positions) if positions else make_grid(axnames)
+        a = args() if args is not None else (make_da("da", [Sym("t")] + [dimsym(x, "center") for x in axnames]),)
+        b = dict(func=func or Obj("func", "userfunc"), args=tuple(a), axis=copy.deepcopy(axis), grid=g, signature=signature,
+                 boundary_width=copy.deepcopy(boundary_width), boundary=Sym("USER_BOUNDARY"), fill_value=Sym("USER_FILL"),
+                 keep_coords=Sym("USER_KEEP"), dask=Sym("USER_DASK"), map_overlap=map_overlap, pad_before_func=pad_before_func,
+                 other_component=copy.deepcopy(other_component), kwargs=dict(extra_kwargs or {"extra_option": Sym("USER_EXTRA")}))
+        b.update(over)
+        return b
+
+    return ev.run_paths(fi, make)
